@@ -106,9 +106,14 @@ class ProxyCommand(ClosingContextManager):
 
                 r, w, x = select([self.process.stdout], [], [], select_timeout)
                 if r and r[0] == self.process.stdout:
-                    buffer += os.read(
+                    chunk = os.read(
                         self.process.stdout.fileno(), size - len(buffer)
                     )
+                    if len(chunk) == 0:
+                        # EOF: the proxy process closed its stdout (exited).
+                        # Like a socket, report it as a short / empty read.
+                        break
+                    buffer += chunk
             return buffer
         except socket.timeout:
             if buffer:
